@@ -48,13 +48,26 @@ extern "C" {
 }
 const PROT_READ_WRITE: i32 = 1 | 2;
 const MAP_PRIVATE_ANON_NORESERVE: i32 = 0x02 | 0x20 | 0x4000;
+/// where the kernel refuses even an unreserved mapping of that size (vm.overcommit_memory = 2) the
+/// request is served from one fixed 1 GiB scratch mapping: the decoders only ever write what they
+/// read from the (kilobyte-sized) input, the request is still counted and reported by the oracle
+static SCRATCH: AtomicUsize = AtomicUsize::new(0);
+const SCRATCH_LEN: usize = 1 << 30;
 unsafe fn huge_alloc(size: usize) -> *mut u8 {
     let p = mmap(std::ptr::null_mut(), size, PROT_READ_WRITE, MAP_PRIVATE_ANON_NORESERVE, -1, 0);
-    if p as isize == -1 {
-        std::ptr::null_mut()
-    } else {
-        p
+    if p as isize != -1 {
+        return p;
     }
+    let mut s = SCRATCH.load(Ordering::Relaxed);
+    if s == 0 {
+        let q = mmap(std::ptr::null_mut(), SCRATCH_LEN, PROT_READ_WRITE, MAP_PRIVATE_ANON_NORESERVE, -1, 0);
+        if q as isize == -1 {
+            return std::ptr::null_mut();
+        }
+        s = q as usize;
+        SCRATCH.store(s, Ordering::Relaxed);
+    }
+    s as *mut u8
 }
 unsafe impl GlobalAlloc for Counting {
     unsafe fn alloc(&self, l: Layout) -> *mut u8 {
@@ -66,7 +79,9 @@ unsafe impl GlobalAlloc for Counting {
     }
     unsafe fn dealloc(&self, p: *mut u8, l: Layout) {
         if l.size() >= HUGE && l.align() <= 4096 {
-            munmap(p, l.size());
+            if p as usize != SCRATCH.load(Ordering::Relaxed) {
+                munmap(p, l.size());
+            }
             return;
         }
         System.dealloc(p, l)
@@ -79,7 +94,7 @@ unsafe impl GlobalAlloc for Counting {
             // move between the two regimes by hand
             let nl = Layout::from_size_align_unchecked(new_size, l.align());
             let q = if new_size >= HUGE && l.align() <= 4096 { huge_alloc(new_size) } else { System.alloc(nl) };
-            if !q.is_null() {
+            if !q.is_null() && q != p {
                 std::ptr::copy_nonoverlapping(p, q, l.size().min(new_size));
                 self.dealloc(p, l);
             }
